@@ -68,7 +68,19 @@ def attempt(f):
 
 # ---------------------------------------------------------------------------------------------------
 def gen_case(rng, i, tier):
-    kind = ["pad", "pad", "ctor", "equiv", "parse", "metric", "metric", "slice01", "slice09", "slice10", "pad", "ctor"][i % 12]
+    kind = ["pad", "pad", "ctor", "equiv", "parse", "metric", "metric", "slice01", "slice09", "slice10", "pad", "ctor", "twodims"][i % 13]
+    if kind == "twodims":
+        # an ill-posed input - an array carrying two dimensions of the same axis - through pad, a grid ufunc and diff:
+        # whatever the outcome (refusal), it is the same under every hash seed
+        for _ in range(50):
+            d = c01.gen_case(rng, i, tier)
+            cm = gen.layout_coords(d["layout"])
+            multi = [a for a in cm if len(cm[a]) >= 2]
+            if multi:
+                break
+        a = rng.choice(multi)
+        p1, p2 = rng.sample(list(cm[a]), 2)
+        return {"kind": "twodims", "d": d, "axis": a, "dims": [cm[a][p1], cm[a][p2]], "width": [rng.randint(0, 2), rng.randint(1, 2)]}
     if kind == "ctor":
         # accept/reject of a (possibly inconsistent) link table must not depend on the order in which it is listed
         nf = rng.randint(2, 4)
@@ -269,6 +281,24 @@ def run_scenario(ctx, desc):
 
         return attempt(f), ("metric", len(desc["registry"]))
     d = desc["d"]
+    if kind == "twodims":
+        import xarray as xr
+
+        from xgcm.padding import pad
+
+        def f():
+            ds, g = c01.make_grid(d)
+            arr = xr.DataArray(gen.quarter_data(5, [ds.sizes[x] for x in desc["dims"]] + [2]), dims=desc["dims"] + ["t_extra"])
+            a = desc["axis"]
+            out = {}
+            for nm, call in (("pad", lambda: pad(arr, g, {a: tuple(desc["width"])}, boundary="extend")),
+                             ("ufunc", lambda: g.apply_as_grid_ufunc(lambda x: x[..., 1:], arr, axis=[(a,)], signature="(Q:center)->(Q:center)",
+                                                                     boundary_width={"Q": (1, 0)}, boundary="extend")),
+                             ("diff", lambda: g.diff(arr, a, boundary="extend"))):
+                out[nm] = attempt(call)
+            return out
+
+        return attempt(f), ("twodims", len(desc["dims"]))
     if kind == "slice01":
         def f():
             ds, g = c01.make_grid(d)
